@@ -16,6 +16,9 @@ use sudachi::sentence_splitter::{SentenceSplitter, SplitSentences};
 
 fn assert_send_sync<T: Send + Sync>() {}
 
+/// repetitions of every thread's operation list after the recorded first round
+const ROUNDS: usize = 40;
+
 #[derive(Clone)]
 enum Op {
     Tok(String, Mode),
@@ -97,21 +100,39 @@ pub fn child(run: &mut Run) {
     let counter = AtomicUsize::new(0);
     let events: Mutex<Vec<(usize, usize, usize, String)>> = Mutex::new(vec![]);
     let barrier = Barrier::new(nthreads);
+    let repeats = AtomicUsize::new(0);
+    let repeats_bad: Mutex<Vec<String>> = Mutex::new(vec![]);
     let dref: &JapaneseDictionary = &w.dic;
     std::thread::scope(|sc| {
         for (t, ops) in all_ops.iter().enumerate() {
             let counter = &counter;
             let events = &events;
             let barrier = &barrier;
+            let repeats = &repeats;
+            let repeats_bad = &repeats_bad;
             sc.spawn(move || {
                 let mut tok = StatefulTokenizer::new(dref, Mode::C);
                 let mut ml = MorphemeList::empty(dref);
                 barrier.wait();
+                let mut first: Vec<String> = vec![];
                 for (k, op) in ops.iter().enumerate() {
                     let r = perform(dref, &mut tok, &mut ml, op);
                     let seq = counter.fetch_add(1, Ordering::SeqCst);
+                    first.push(r.clone());
                     events.lock().unwrap().push((seq, t, k, r));
                     if (t + k) % 3 == 0 { std::thread::yield_now(); }
+                }
+                // further rounds over the same operations (short texts only): a torn read of shared state needs
+                // many tries to show; every repetition must give what the first round gave
+                for _round in 0..ROUNDS {
+                    for (k, op) in ops.iter().enumerate() {
+                        if let Op::Tok(t2, _) = op { if t2.len() > 2000 { continue; } }
+                        let r = perform(dref, &mut tok, &mut ml, op);
+                        if r != first[k] {
+                            repeats_bad.lock().unwrap().push(format!("thread {} op {}: repetition gave {:?}, first round {:?}", t, k, r.chars().take(100).collect::<String>(), first[k].chars().take(100).collect::<String>()));
+                        }
+                        repeats.fetch_add(1, Ordering::Relaxed);
+                    }
                 }
             });
         }
@@ -143,7 +164,7 @@ pub fn child(run: &mut Run) {
     ev.sort_by_key(|e| e.0);
     let sched: Vec<usize> = ev.iter().map(|e| e.1).collect();
     let trace: Vec<String> = ev.iter().map(|e| format!("{}:{}", e.1, id_of(&e.3))).collect();
-    let mut mism = vec![];
+    let mut mism = repeats_bad.into_inner().unwrap();
     for e in &ev {
         if base[e.1][e.2] != e.3 {
             mism.push(format!("thread {} op {}: concurrent {:?} vs alone {:?}", e.1, e.2, e.3.chars().take(120).collect::<String>(), base[e.1][e.2].chars().take(120).collect::<String>()));
@@ -156,7 +177,7 @@ pub fn child(run: &mut Run) {
         "res": res.iter().map(|(a, b)| format!("{}:{}", a, b)).collect::<Vec<_>>().join(","),
         "sched": join(sched.iter(), ","), "trace": trace.join(","),
         "fp_before": fp_before.to_string(), "fp_after": fp_after.to_string(), "mismatches": mism, "panics": panics,
-        "events": ev.len(),
+        "events": ev.len(), "repetitions": repeats.load(Ordering::Relaxed),
     }));
 }
 
@@ -190,6 +211,7 @@ plus Python threads over tokenizers of one Dictionary".into();
         let threads = v["threads"].as_u64().unwrap_or(0) as usize;
         run.bump(&format!("threads:{}", threads));
         run.bump_by("events", sched.len() as u64);
+        run.bump_by("repeated-analyses", v["repetitions"].as_u64().unwrap_or(0));
         run.bump_by("context-switches-observed", switches as u64);
         let payload = format!("ops={} res={} sched={}", v["ops"].as_str().unwrap_or(""), v["res"].as_str().unwrap_or(""), v["sched"].as_str().unwrap_or(""));
         let ans = format!("ok trace={}", v["trace"].as_str().unwrap_or(""));
